@@ -1062,4 +1062,8 @@ theorem view?_pushMem_old {s : State} (h : Inv s) {d x : Nat} {v : View} (hx : x
     have := h.vars _ _ hv
     simp [pushMem, hv, List.getElem?_append_left this]
 
+theorem view_of_same {s s' : State} (hm : s'.mems = s.mems) (hv : s'.vars = s.vars) (x : Nat) :
+    view? s' x = view? s x := by
+  unfold view?; rw [hm, hv]
+
 end Occa.Mem
